@@ -3,6 +3,7 @@ package mon
 import (
 	"encoding/hex"
 	"fmt"
+	"math"
 	"math/rand/v2"
 	"regexp"
 	"strings"
@@ -682,6 +683,7 @@ var c14PosCodes = sync.OnceValue(func() map[string]*gojq.Code {
 		"index":   `[$is[] as $i | .[$i]]`,
 		"slice":   `[(null, $is[]) as $i | (null, $is[]) as $j | .[$i:$j]]`,
 		"slice1":  `[$is[] as $i | [.[$i:], .[:$i]]]`,
+		"fslice":  `. as $s | [(null, -0.5, 0.5, -1.5, 1.5, -2.5, 2.5, (length - 0.5), (0.5 - length), (-0.5 - length), -0.25, 3.75) as $i | (null, -0.5, 0.5, -1.5, 1.5, -2.5, (length - 0.5), (0.5 - length), -0.75) as $j | [$i, $j, ($s | .[$i:$j])]]`,
 		"const":   `[.[0], .[-1], .[2], .[-3], .[1:], .[:-1], .[1:3], .[-2:], .[:2], .[-3:-1], .[2:1]]`,
 		"indices": `[$subs[] as $t | [index($t), rindex($t), indices($t)]]`,
 	} {
@@ -858,6 +860,59 @@ var kC14Pos = run.NewKind("c14.positions", func(c *run.Ctx, t c14Pos) *run.Fail 
 				return run.Failf("%s: [.[%d:], .[:%d]] is %s, by code points %s", id, i, i, run.Canon(got[k]), run.Canon(want))
 			}
 		}
+	}
+
+	// fractional boundaries: a negative one counts from the end first, then the start is rounded down and the end up
+	v, f = runQ("fslice")
+	if f != nil {
+		return f
+	}
+	{
+		got, _ := v.([]any)
+		if len(got) != 12*9 {
+			return run.Failf("%s: fractional slice query returned %d values", id, len(got))
+		}
+		bound := func(x any, end bool, lo int) (int, bool) {
+			if x == nil {
+				if end {
+					return n, true
+				}
+				return 0, true
+			}
+			var fl float64
+			switch x := x.(type) {
+			case float64:
+				fl = x
+			case int:
+				fl = float64(x)
+			default:
+				return 0, false
+			}
+			if fl < 0 {
+				fl = math.Max(fl+float64(n), 0)
+			}
+			if end {
+				fl = math.Ceil(fl)
+			} else {
+				fl = math.Floor(fl)
+			}
+			return min(max(int(fl), lo), n), true
+		}
+		for _, g := range got {
+			tri, _ := g.([]any)
+			if len(tri) != 3 {
+				return run.Failf("%s: fractional slice query returned %s", id, run.Canon(g))
+			}
+			start, ok1 := bound(tri[0], false, 0)
+			end, ok2 := bound(tri[1], true, start)
+			if !ok1 || !ok2 {
+				return run.Failf("%s: fractional slice query returned %s", id, run.Canon(g))
+			}
+			if want := string(R[start:end]); tri[2] != any(want) {
+				return run.Failf("%s: .[%s:%s] is %s, by code points %q", id, run.Canon(tri[0]), run.Canon(tri[1]), run.Canon(tri[2]), want)
+			}
+		}
+		c.Count("fractional_slice_ops_checked", int64(len(got)))
 	}
 
 	// the same with constant indices (compiled to a different instruction)
